@@ -86,6 +86,10 @@ def run(prog, x, ap):
             regs.append(ap.trace(regs[ins[1]]))
         elif k == 'outer':
             regs.append(ap.outer(regs[ins[1]], regs[ins[2]]))
+        elif k == 'symvec':
+            regs.append(ap.symvec(regs[ins[1]], ins[2]))
+        elif k == 'vecsym':
+            regs.append(ap.vecsym(regs[ins[1]]))
         elif k == 'powr':
             regs.append(regs[ins[1]] ** regs[ins[2]])
         elif k in ('eigh', 'qr', 'cholesky', 'svd'):
@@ -102,7 +106,8 @@ def creates_reg(ins):
 
 
 class Gen:
-    def __init__(self, rng, N, scalar_only=False, buffers=True, linalg=True, rational=False, facts=True, traced_pow=False):
+    def __init__(self, rng, N, scalar_only=False, buffers=True, linalg=True, rational=False, facts=True, traced_pow=False, focus=None):
+        self.focus = focus
         self.rng, self.N = rng, N
         self.instrs = []
         self.kind = []          # per register: 's' scalar | ('v', n) | ('m', n, m) | 'bufv' | 'bufm'
@@ -222,6 +227,35 @@ class Gen:
 
     def matrix_block(self):
         n = 2
+        if self.rng.random() < 0.4:
+            # not diagonally dominant: which row partial pivoting picks depends on the evaluation point (and so differs between
+            # directions with different base points); well conditioned all the same
+            n = self.rng.choice([2, 3])
+            base = {2: [[1.0, 2.0], [1.1, -2.0]], 3: [[1.0, 2.0, 0.5], [1.1, -2.0, 1.0], [0.9, 0.3, 3.0]]}[n]
+            M = self.emit(['zeros2', n, n], 'bufm')
+            for i in range(n):
+                for j in range(n):
+                    t = self.emit(['un', self.rng.choice(['sin', 'cos']), self.pick_scalar()], 's')
+                    sc = self.emit(['bin', 'mul', ['r', t], ['c', 0.3]], 's')
+                    e = self.emit(['bin', 'add', ['r', sc], ['c', base[i][j]]], 's')
+                    self.emit(['set2', M, i, j, ['r', e]])
+            r = self.rng.random()
+            if r < 0.4:
+                return self.emit(['det', M], 's')
+            if r < 0.7:
+                return self.emit(['logdet', M], 's')
+            if r < 0.85:
+                Y = self.emit(['inv', M], ('m', n, n)); return self.emit(['trace', Y], 's')
+            # distinct entries of a NON-symmetric matrix under every storage convention
+            v = self.emit(['symvec', M, self.rng.choice(['F', 'L', 'U'])], ('v', n * (n + 1) // 2))
+            w = self.emit(['bin', 'mul', ['r', v], ['a', [self.rng.choice([0.5, -1.0, 2.0, 1.5]) for _ in range(n * (n + 1) // 2)]]], ('v', n * (n + 1) // 2))
+            s1 = self.emit(['sum', w], 's')
+            if self.rng.random() < 0.5:
+                S = self.emit(['vecsym', v], ('m', n, n))
+                W = self.emit(['bin', 'mul', ['r', S], ['a', [[self.rng.choice([0.5, 1.0, -1.0]) for _ in range(n)] for _ in range(n)]]], ('m', n, n))
+                s2 = self.emit(['sum', W], 's')
+                return self.emit(['bin', 'add', ['r', s1], ['r', s2]], 's')
+            return s1
         M = self.emit(['zeros2', n, n], 'bufm')
         for i in range(n):
             for j in range(n):
@@ -309,7 +343,7 @@ class Gen:
                 # Q is defined up to the sign of its columns: use the sign-invariant Q diag(c) Q^T
                 Q = self.emit(['tget', lq, 1], ('m', n, n))
                 QT = self.emit(['T', Q], ('m', n, n))
-                D1 = self.emit(['bin', 'mul', ['r', Q], ['a', [self.rng.choice([1.0, 2.0, -0.5]) for _ in range(n)]]], ('m', n, n))
+                D1 = self.emit(['bin', 'mul', ['r', Q], ['a', self.rng.sample([1.0, 2.0, -0.5, 0.75], n)]], ('m', n, n))      # distinct weights: equal ones give c I, independent of Q
                 P = self.emit(['dot', D1, QT], ('m', n, n))
                 W = self.emit(['bin', 'mul', ['r', P], ['a', [[self.rng.choice([0.5, 1.0, -1.0]) for _ in range(n)] for _ in range(n)]]], ('m', n, n))
                 s2 = self.emit(['sum', W], 's')
@@ -332,6 +366,11 @@ class Gen:
         outs = []
         while len(self.instrs) < length:
             r = self.rng.random()
+            if self.focus == 'linalg' and not self.scalar_only and self.linalg and r < 0.6:
+                # programs dominated by array-level blocks (pivoting LU, factorizations, rectangular dot, symvec/vecsym)
+                q = self.rng.random()
+                outs.append(self.matrix_block() if q < 0.5 else (self.fact_block() if (q < 0.7 and self.facts) else (self.rect_block() if q < 0.85 else self.vector_block())))
+                continue
             if self.buffers and r < 0.2:
                 outs.append(self.buffer_block())
             elif not self.scalar_only and r < 0.32:
@@ -362,11 +401,11 @@ class Gen:
         return dict(N=self.N, instrs=self.instrs, ret=ret)
 
 
-def gen_prog(rng, ap, N=None, length=None, nout=1, scalar_only=False, buffers=True, linalg=True, tries=50, rational=False, facts=True, traced_pow=False):
+def gen_prog(rng, ap, N=None, length=None, nout=1, scalar_only=False, buffers=True, linalg=True, tries=50, rational=False, facts=True, traced_pow=False, focus=None):
     """generate a program whose values stay moderate at a few test points"""
     for _ in range(tries):
         n = N or rng.randint(1, 4)
-        g = Gen(rng, n, scalar_only=scalar_only or rational, buffers=buffers, linalg=linalg, rational=rational, facts=facts, traced_pow=traced_pow)
+        g = Gen(rng, n, scalar_only=scalar_only or rational, buffers=buffers, linalg=linalg, rational=rational, facts=facts, traced_pow=traced_pow, focus=focus)
         prog = g.build(length or rng.randint(4, 22), nout=nout)
         ok = True
         for _t in range(3):
@@ -409,4 +448,54 @@ def run_vec(prog, x, ap):
     out = ap.zeros(len(ys), dtype=x)
     for k, y in enumerate(ys):
         out[k] = y
+    return out
+
+
+def kernel_programs(rng, ap, reps=2):
+    """small programs that exercise EVERY pullback kernel the generator knows at least `reps` times, independent of what the random
+    program composition happens to pick: one per unary function, per power exponent, and several per array-level block"""
+    out = []
+
+    def finish(g, r):
+        sc = g.scalars()
+        acc = g.emit(['bin', 'mul', ['r', r], ['r', sc[0]]], 's')
+        acc = g.emit(['bin', 'add', ['r', acc], ['r', r]], 's')
+        return dict(N=g.N, instrs=g.instrs, ret=[acc])
+
+    def start(N=2):
+        g = Gen(rng, N)
+        for i in range(N):
+            g.emit(['x', i], 's')
+        s = g.emit(['un', 'sin', 0], 's')
+        a = g.emit(['bin', 'mul', ['r', s], ['r', 1 % N]], 's')
+        return g, a
+
+    for _ in range(reps):
+        for f in UN_ANY:
+            g, a = start()
+            if f in ('exp', 'expm1'):
+                a = g.emit(['un', 'sin', a], 's')
+            out.append(('un:' + f, finish(g, g.emit(['un', f, a], 's'))))
+        for f in UN_POS:
+            g, a = start()
+            sq = g.emit(['un', 'square', a], 's')
+            pos = g.emit(['bin', 'add', ['r', sq], ['c', rng.choice([0.5, 1.0, 2.0])]], 's')
+            out.append(('un:' + f, finish(g, g.emit(['un', f, pos], 's'))))
+        for p in [2, 3, 4, 6, 7, 0.5, 1.5, -1, -2, -3]:
+            g, a = start()
+            sq = g.emit(['un', 'square', a], 's')
+            b = g.emit(['bin', 'add', ['r', sq], ['c', 1.0]], 's')
+            out.append(('pow:%s' % p, finish(g, g.emit(['pow', b, p], 's'))))
+        for op in ['add', 'sub', 'mul', 'div']:
+            for form in ['rr', 'rc', 'cr']:
+                g, a = start()
+                sq = g.emit(['un', 'square', 1], 's')
+                den = g.emit(['bin', 'add', ['r', sq], ['c', 1.5]], 's')
+                l = ['r', a] if form[0] == 'r' else ['c', 1.75]
+                r_ = ['r', den] if form[1] == 'r' else ['c', -2.5]
+                out.append(('bin:%s:%s' % (op, form), finish(g, g.emit(['bin', op, l, r_], 's'))))
+    for name, k in [('buffer_block', 3), ('vector_block', 8), ('matrix_block', 14), ('rect_block', 10), ('fact_block', 8)]:
+        for _ in range(k * reps // 2 if reps > 1 else k):
+            g, a = start(N=rng.randint(2, 4))
+            out.append((name, finish(g, getattr(g, name)())))
     return out
